@@ -16,9 +16,9 @@
 package main
 
 import (
-	"strconv"
 	"fmt"
 	"sort"
+	"strconv"
 	"strings"
 
 	"github.com/Fantom-foundation/lachesis-base/kvdb"
@@ -150,7 +150,7 @@ func big(c byte) string { return strings.Repeat(string(c), 60*1024) }
 // model of the acknowledged state
 type model struct {
 	kind    string
-	disk    map[string]map[string]string // durable model contents (existing databases)
+	disk    map[string]map[string]string  // durable model contents (existing databases)
 	buf     map[string]map[string]*string // pool: buffered writes per open database (nil value = delete)
 	open    map[string]bool               // databases with a live handle in this session
 	dropped map[string]bool               // pool: drop queued
